@@ -19,6 +19,7 @@ import (
 	"fmt"
 	"log/slog"
 	"net/http"
+	"slices"
 
 	"github.com/bartventer/httpcache/store/driver"
 )
@@ -115,6 +116,9 @@ func (r *responseCache) GetRefs(urlKey string) (ResponseRefs, error) {
 			fmt.Sprintf("failed to unmarshal cached refs for key %q", urlKey),
 		)
 	}
+	// A corrupted index may decode to null members ("[null]"); a missing reference
+	// cannot be matched or followed, so it is dropped here once for all users.
+	refs = slices.DeleteFunc(refs, func(ref *ResponseRef) bool { return ref == nil })
 	return refs, nil
 }
 
